@@ -89,10 +89,18 @@ theorem C23_gen_stream_names :
        "dpos.RewardData", "dpos.StateKeyFrame", "mempool.txPoolCheckpoint", "wallet.CoinsCheckPoint"] := by
   decide
 
-/-- the three types whose streams contain no dynamic dispatch have a fully decodable derived schema -/
+/-- the six types whose streams contain no dynamic dispatch have a fully decodable derived schema -/
 theorem C23_gen_derived :
     (Gen.C23.streams.filter (fun s => !hasFail (ofToks s.de))).map (·.name) =
-      ["cr.ProposalKeyFrame", "dpos.RewardData", "dpos.StateKeyFrame"] := by decide +kernel
+      ["cr.Checkpoint", "cr.KeyFrame", "cr.ProposalKeyFrame", "cr.StateKeyFrame", "dpos.RewardData",
+       "dpos.StateKeyFrame"] := by decide +kernel
+
+/-- the DPoS `CheckPoint` is decodable except inside its `ArbiterMember` lists / maps (an interface
+    dispatched on a type byte), the mempool checkpoint except inside its transaction map; the wallet
+    checkpoint has an owned-coins object outside any list and stays undecodable -/
+theorem C23_gen_partial :
+    (Gen.C23.streams.filter (fun s => hasFail (ofToks s.de) && !hasFailOutsideList (ofToks s.de))).map (·.name) =
+      ["dpos.CheckPoint", "mempool.txPoolCheckpoint"] := by decide +kernel
 
 def without (xs ex : List String) : List String := xs.filter (fun x => !ex.contains x)
 
